@@ -110,6 +110,11 @@ class ConfigImpl:
             # (C13 finding D5) reducers can only be re-configured after observing once; where that
             # is repaired both the observed and the never-observed reducer are exercised
             self.obj(torch.zeros(2, 3))
+            if hdr.get("warm") == "ks":
+                # a third calling history: observed once, then cleared KEEPING the shape of its storage; every further
+                # re-configuration is preceded by clear(keepshape=True) too and so is the probe (clearing is not a
+                # configuration step: the reducer must still equal a freshly constructed one)
+                self.obj.clear(keepshape=True)
 
     def _ms(self, ticks):
         # the float a user would write for that many ticks (0.7, 2.1, ...), not the product k * tick
@@ -175,6 +180,8 @@ class ConfigImpl:
             if a == "probe":
                 return self._probe()
             k, o = self.kind, self.obj
+            if k == "reducer" and self.hdr.get("warm") == "ks":
+                o.clear(keepshape=True)
             if a == "set_dt":
                 x = self._ms(v)
                 if k == "layer":
@@ -269,6 +276,8 @@ class ConfigImpl:
         if self.kind == "layer":          # components directly (Layer.clear is covered by C17)
             o.connection.clear()
             o.neuron.clear()
+        elif self.kind == "reducer" and self.hdr.get("warm") == "ks":
+            o.clear(keepshape=True)
         else:
             o.clear()
 
